@@ -186,7 +186,7 @@ def arrivals(rng, upto_rel, style):
     return out
 
 
-def run_ops(exs, rng, canonical):
+def run_ops(exs, rng, canonical, force=None):
     """ops of one schedule over the whole connection (stream already set)."""
     ops = []
     arrived = 0        # absolute arrival position in the stream
@@ -228,6 +228,8 @@ def run_ops(exs, rng, canonical):
             else:
                 if hundred:
                     mode = rng.choice(["none", "prefixes", "all", "giveup-early"])
+                    if force and force.get("await"):
+                        mode = force["await"]
                     if mode == "all":
                         ops += ["arrive %s" % num(len(hundred)), "try100"]
                         arrived = h_end
@@ -282,6 +284,8 @@ def run_ops(exs, rng, canonical):
         # ---- response head (a late 100 is skipped on the way)
         head_end = h_end + len(rs["head"])
         style = "all" if canonical else rng.choice(["all", "one", "rand", "rand"])
+        if force and force.get("head_style") and not canonical:
+            style = force["head_style"]
         targets = []
         if not consumed100 and hundred and arrived < h_end and not canonical and rng.random() < 0.5:
             targets.append(h_end)     # let the late 100 complete on its own first
@@ -331,8 +335,31 @@ def run_ops(exs, rng, canonical):
     return ops
 
 
-def build(rng, tier):
-    exs = gen_exchanges(rng)
+def short_head_exchange(rng, i):
+    """An Expect request whose interim 100 arrives late (the caller gave up waiting, or saw only a part of it), answered by a final
+    head WITHOUT header fields (16..19 bytes: shorter than the interim head): state kept by try_response across the interim head
+    must not leak into the parse of the final one (seeded change C01-15)."""
+    n = rng.choice([1, 5, 17])
+    body = payload(n, rng.randrange(256))
+    framing = rng.choice(["length", "chunked"])
+    headers = ([("content-length", str(n))] if framing == "length" else []) + [("expect", "100-continue")]
+    rq = {"method": "POST", "version": "1.1", "despite": False, "headers": headers, "framing": framing, "body": body,
+          "expect": True, "has_body": True, "pq": "/"}
+    kind = i % 3
+    if kind == 0:
+        decoded = payload(rng.choice([0, 1, 40]), rng.randrange(256))
+        rs = {"head": b"HTTP/1.1 200 OK\r\n\r\n", "wire": decoded, "decoded": decoded, "mode": "close", "status": 200}
+    elif kind == 1:
+        rs = {"head": b"HTTP/1.1 204\r\n\r\n", "wire": b"", "decoded": b"", "mode": "none", "status": 204}
+    else:
+        rs = {"head": b"HTTP/1.0 304 \r\n\r\n", "wire": b"", "decoded": b"", "mode": "none", "status": 304}
+    rs.update({"is3xx": False, "loc_end": None, "server_close": rs["mode"] == "close", "nchunks": 0})
+    hundred = [b"HTTP/1.1 100 Continue\r\n\r\n", b"HTTP/1.1 100\r\n\r\n", b"HTTP/1.0 100 Go on then\r\n\r\n"][(i // 3) % 3]
+    return [{"rq": rq, "rs": rs, "hundred": hundred}]
+
+
+def build(rng, tier, exs=None, force=None):
+    exs = exs or gen_exchanges(rng)
     stream = b"".join(ex["hundred"] + ex["rs"]["head"] + ex["rs"]["wire"] for ex in exs)
     k = 12 if tier == "thorough" else 5
     ops = []
@@ -340,7 +367,7 @@ def build(rng, tier):
     for r in range(k + 1):
         run_starts.append(len(ops))
         ops.append("stream %s" % hx(stream))
-        ops += run_ops(exs, rng, canonical=(r == 0))
+        ops += run_ops(exs, rng, canonical=(r == 0), force=force)
     _stats["exchanges"] += len(exs)
     _stats["runs"] += k + 1
     for ex in exs:
@@ -424,7 +451,9 @@ def oracle_redirected(script, obs):
 
 def generate(rng, tier, mult):
     count = (400 if tier == "quick" else 2500) * mult
-    return [build(rng, tier) for _ in range(count)] + [build_redirected(rng, tier) for _ in range(count // 10)]
+    short = [build(rng, tier, short_head_exchange(rng, i), {"await": ["giveup-early", "none", "giveup-early"][i % 3], "head_style": ["one", "one", "rand"][i % 3]})
+             for i in range(27 if tier == "quick" else 90)]
+    return short + [build(rng, tier) for _ in range(count)] + [build_redirected(rng, tier) for _ in range(count // 10)]
 
 
 def stats():
